@@ -281,6 +281,11 @@ theorem detect_fires_after_2038 {E : Env K} {S : Src} (now : Int) (A : Arts K) (
   simp [deploy, workspaceUpdate, configFileUpdate, hA, hc, hl, upd]
   exact castInt_neg_2038 now h1 h2
 
+/-- when a data directory, or an entry of one, cannot be examined (a dangling link: `fs::canonical` throws), the
+pre-filter answers "modified" — it never answers "nothing to do" on information it could not read, so the full
+deployment (to which the theorems above apply) runs. -/
+theorem detect_fires_on_unreadable_entry : detectModificationsOnError = true := rfl
+
 /-- so an edit of a scanned `*.yaml` made after a deployment finished (mtime later than the `time(NULL)`
 that deployment stored; the clock past the epoch) is always detected; an edit whose mtime is not later (made while
 the deployment ran, or restored with an old mtime), and any `*.txt` / sub-directory file, is not — by
